@@ -96,6 +96,10 @@ func drawHistory(t *rapid.T) *pbt.Case {
 		// types throughout: what a memo keyed by type would confuse).
 		k := rapid.SampledFrom([]string{"domain", "domain", "ukeymarker", "telemetry", "tags", "httpcode", "grpccode", "hint", "issuelink", "safedetails"}).Draw(t, "valuekind")
 		inner := c.Spec
+		if rapid.Bool().Draw(t, "twice") {
+			// the same kind of annotation applied twice in a row
+			inner = g.WrapOf(t, k, inner)
+		}
 		c.Spec = g.WrapOf(t, k, inner)
 		c.Aux = append(c.Aux, g.WrapOf(t, k, inner.Clone()))
 	}
@@ -128,6 +132,22 @@ func checkHistory(c *pbt.Case, r *pbt.R) {
 	}
 	if got, want := res[len(seq)-1], res[0]; got != want {
 		r.Failf("the result of a call depends on which other errors were handled before", "spec %s\nin between: %v\n%s", c.Spec, c.Aux, firstDiff(got, want))
+	}
+	// "Error structs are never mutated after construction": wrapping an
+	// error (and using the wrapper) leaves the wrapped error as it was.
+	if c.Spec.C != nil && !gen.IsMultiKind(c.Spec.K) {
+		inner := gen.Build(c.Spec.C)
+		before := observe(inner)
+		top := *c.Spec
+		top.C = &gen.Spec{K: "prebuilt"}
+		gen.Prebuilt = inner
+		outer := gen.Build(&top)
+		gen.Prebuilt = nil
+		observe(outer)
+		if after := observe(inner); after != before {
+			r.Failf("wrapping an error (and using the wrapper) changes the wrapped error", "wrapper %s\nspec %s\n%s", c.Spec.K, c.Spec, firstDiff(after, before))
+		}
+		r.Count("features", "wrapped error observed before and after wrapping")
 	}
 	if len(c.Aux) >= 2 {
 		r.NonTrivial()
